@@ -520,6 +520,16 @@ class State:
         elif ob.status is None:
             ob.status = "uncovered"
 
+    def cover_dead(self, name):
+        """The vacuity guard `name` was NOT reached on this path because the path ended just before it (e.g. a callee
+        contract whose postcondition is concretely false for the arguments at hand): the guard exists and stays
+        `uncovered` unless another path covers it."""
+        key = (name, ())
+        if key not in self.ex.obligations:
+            ob = Obligation(name, "cover")
+            ob.status = "uncovered"
+            self.ex.obligations[key] = ob
+
     def to_smt2(self, goal):
         s = z3.Solver()
         s.add(*self.pc)
